@@ -273,6 +273,63 @@ theorem live_without_sweep (ops : List Op) (h : Heap) (hi : Inv h) (hok : OpsOk 
     · exact ih (step h op) (inv_step hi op hok.1) hok.2 h1 (fun o ho => hns o (List.mem_cons_of_mem _ ho))
     · exact absurd hop (hns op (List.mem_cons_self) w)
 
+def isSweep : Op → Bool
+  | .sweep _ => true
+  | _ => false
+
+def sweepCount (ops : List Op) : Nat := (ops.filter isSweep).length
+
+/-- A slot that is marked (or permanent) stays marked-or-permanent under any non-sweep step. -/
+theorem marked_or_perm_step (h : Heap) (hi : Inv h) (op : Op) (hns : isSweep op = false) (id : Nat)
+    (s : Bytes) (hm : h.slots[id]? = some (.temp s true) ∨ h.slots[id]? = some (.perm s)) :
+    (step h op).slots[id]? = some (.temp s true) ∨ (step h op).slots[id]? = some (.perm s) := by
+  rcases hm with hm | hm
+  · obtain ⟨sl', hsl', hst, hwin⟩ := slot_step h hi op id _ hm
+    cases hst with
+    | same => left; exact hsl'
+    | promote t m => right; exact hsl'
+    | mark t m => left; exact hsl'
+    | unmark t =>
+      obtain ⟨w, hop, _⟩ := hwin (Or.inr ⟨s, rfl, rfl⟩)
+      subst hop; simp [isSweep] at hns
+  · obtain ⟨sl', hsl', hst, _⟩ := slot_step h hi op id _ hm
+    cases hst
+    right; exact hsl'
+
+/-- **Two passes are needed**: a string marked since the sweeper last passed over it is still
+readable after ANY history that contains at most one sweep (of any window) — reclaiming it takes
+one pass to clear the mark and a second one to free it, with no mark in between. -/
+theorem marked_needs_two_sweeps (ops : List Op) (h : Heap) (hi : Inv h) (hok : OpsOk h ops)
+    (id : Nat) (s : Bytes) (hm : h.slots[id]? = some (.temp s true) ∨ h.slots[id]? = some (.perm s))
+    (hcount : sweepCount ops ≤ 1) : read (run ops h) (.ref id) = some s := by
+  induction ops generalizing h with
+  | nil => rcases hm with hm | hm <;> simp [run, read, hm]
+  | cons op ops ih =>
+    simp only [run, List.foldl_cons]
+    have hi' := inv_step hi op hok.1
+    by_cases hs : isSweep op = true
+    · -- this is the one sweep: afterwards the slot is still live and no sweep follows
+      have hrest : ∀ o ∈ ops, ∀ w, o ≠ .sweep w := by
+        intro o ho w hc
+        subst hc
+        have : sweepCount (op :: ops) ≥ 2 := by
+          simp only [sweepCount, List.filter_cons, hs, ↓reduceIte, List.length_cons]
+          have : (List.filter isSweep ops).length ≥ 1 := by
+            apply List.length_pos_of_mem (a := Op.sweep w)
+            simp [List.mem_filter, ho, isSweep]
+          omega
+        omega
+      have hr : read (step h op) (.ref id) = some s := by
+        rcases hm with hm | hm
+        · exact marked_survives h hi op id s hm
+        · obtain ⟨sl', hsl', hst, _⟩ := slot_step h hi op id _ hm
+          cases hst; simp [read, hsl']
+      exact live_without_sweep ops _ hi' hok.2 (.ref id) s hr hrest
+    · have hs' : isSweep op = false := by simpa using hs
+      apply ih (step h op) hi' hok.2 (marked_or_perm_step h hi op hs' id s hm)
+      simpa [sweepCount, List.filter_cons, hs'] using hcount
+
+
 /-- **C17 (c3)** every part of a module reference that was readable when the reference was created
 is permanent afterwards and stays readable over every later history. -/
 theorem modref_parts_never_reclaimed (h : Heap) (hi : Inv h) (ps : List Handle)
@@ -418,5 +475,6 @@ example : read (run (demoOps.take 6)) (.ref 0) = none := by decide         -- se
 example : read (run (demoOps.take 6)) (.ref 1) = some longB := by decide   -- module part: permanent
 example : (allocString (run (demoOps.take 6)) longA).2 = .ref 2 := by decide -- fresh handle
 example : Inv (run demoOps) := inv_reachable demoOps demoOps_ok
+example : sweepCount (demoOps.take 5) ≤ 1 := by decide   -- marked_needs_two_sweeps applies to the 5-op prefix
 
 end SamVerif.Heap
